@@ -227,6 +227,14 @@ def f17_pickle_decorated_dataset():
         return f"decorator-form dataset cannot be pickled: {type(e).__name__}: {str(e)[:120]}"
 
 
+def f26_alloptions_unresolvable():
+    from labrea.option import AllOptions
+    o = {"A": "{NOPE}"}
+    ks, ev, vl = outcome(lambda: AllOptions.keys(o)), outcome(lambda: AllOptions(o)), outcome(lambda: AllOptions.validate(o))
+    if ks[0] == "ok" and ev[0] == "err":
+        return f"AllOptions on {o}: keys succeeds ({ks[1]}) while evaluate/validate fail ({ev}, {vl})"
+
+
 def scenarios():
     return {k: v for k, v in list(globals().items()) if k.startswith("f") and callable(v) and k[1].isdigit()}
 
